@@ -1173,6 +1173,18 @@ handle_null_request(int tun_fd, int dns_fd, struct dnsfd *dns_fds, struct query 
 		if (max_frag_size < 2) {
 			write_dns(dns_fd, q, "BADFRAG", 7, users[userid].downenc);
 		} else {
+#ifdef DNSCACHE_LEN
+			if (max_frag_size < users[userid].fragsize) {
+				/* Cached answers were cut for the larger size;
+				   don't replay them any more */
+				int i;
+
+				for (i = 0; i < DNSCACHE_LEN; i++) {
+					users[userid].dnscache_q[i].id = 0;
+					users[userid].dnscache_answerlen[i] = 0;
+				}
+			}
+#endif
 			users[userid].fragsize = max_frag_size;
 			users[userid].options_locked = 1;
 			write_dns(dns_fd, q, &unpacked[1], 2, users[userid].downenc);
